@@ -111,9 +111,21 @@ func (l *listener) listenLoop() {
 					return
 				}
 				internalLogger.info("accepted a new stream")
+				// The stream takes its reference on the session while the listener still holds its own one (both under
+				// l.mu): after Close() dropped the listener's reference the counter may already be zero, and adding to
+				// it again while the waiter is returning panics (WaitGroup is reused before previous Wait has returned).
+				l.mu.Lock()
+				if _, ok := l.sessions[session]; !ok {
+					l.mu.Unlock()
+					_ = stream.Close()
+					return
+				}
 				conn := newStreamWrapper(stream, stream.LocalAddr(), stream.RemoteAddr(), wg)
+				l.mu.Unlock()
 				select {
 				case <-l.closeCh:
+					// nobody can accept this connection any more, give its reference back
+					_ = conn.Close()
 					return
 				case l.backlog <- conn:
 				}
